@@ -217,6 +217,8 @@ def binary_ops():
         ('bcast-row-right', lambda a, b: a.mul(b[0]), lambda x, y: x * y[0], lambda a, b: True),
         ('bcast-row-left-sub', lambda a, b: a[len(a) - 1].sub(b), lambda x, y: x[-1] - y, lambda a, b: True),
         ('bcast-unit-left', lambda a, b: a[0].unsqueeze(0).maximum(b), lambda x, y: torch.maximum(x[0].unsqueeze(0), y), lambda a, b: a == a and b == b),
+        ('bcast-unit-left-clone', lambda a, b: a[0].unsqueeze(0).clone().add(b), lambda x, y: x[0].unsqueeze(0) + y, lambda a, b: True),
+        ('bcast-unit-right-clone', lambda a, b: a.lt(b[0].unsqueeze(0).clone()), lambda x, y: x.lt(y[0].unsqueeze(0)), lambda a, b: True),
         ('bcast-where', lambda a, b: a[0].where(b.gt(3.), b), lambda x, y: x[0].where(y.gt(3.), y), lambda a, b: True),
         ('expand_as', lambda a, b: a.unsqueeze(0).expand_as(b.unsqueeze(0).expand(3, *b.size())), lambda x, y: x.unsqueeze(0).expand(3, *y.shape), ANY2),
     ]
@@ -570,6 +572,23 @@ def part_comp(case, r):
             if k not in states:
                 states[k] = (t, t.to_dense(), ('init', P.show(p), d))
                 frontier.append(k)
+    # results of an einsum keep (partly renamed) axes of their inputs: the outer product of each initial vector with itself
+    from fggs.indices import einsum as _einsum
+    from fggs.semirings import RealSemiring
+    for k in list(frontier):
+        t, d, hist = states[k]
+        if t.ndim == 1 and t.physical.dtype == torch.float64 and d.numel() <= 4:
+            try:
+                o = _einsum([t, t], [('i',), ('j',)], ('i', 'j'), RealSemiring(dtype=torch.float64))
+            except Warning:
+                continue
+            O = torch.outer(d, d).nan_to_num(nan=0.)          # 0 * inf = 0 in the semiring
+            if not eqn(o.to_dense(), O):
+                continue       # einsum itself is C07's business
+            k2 = pt_key(o)
+            if k2 not in states:
+                states[k2] = (o, O, hist + ('outer-self',))
+                frontier.append(k2)
     r.states += len(states)
 
     def apply(name, f, g, args, dargs, hist):
